@@ -36,10 +36,13 @@ theorem C18_self_presence_completes_join {s} {c : Nat}
   simp [step, hm, hp, upd]
 
 /-- a `Join` call returns the stanza error only after the room's error reply to that request,
-and the context's error only after its context was done -/
+the context's error only after its context was done, and any other error only after its request
+could not be sent or the reply carried no error element (`joinFail`: the third exit of the internal
+goroutine of `JoinPresence`) -/
 theorem C18_join_error {s a s'} (hs : step s a = some s') {c : Nat} {e : JErr}
     (hnew : s'.jpc c = .failing e) (hold : s.jpc c ≠ .failing e) :
-    s.jpc c = .pending ∧ ((e = .stanzaErr ∧ a = .joinError c) ∨ (e = .ctxErr ∧ a = .joinCancel c)) := by
+    s.jpc c = .pending ∧ ((e = .stanzaErr ∧ a = .joinError c) ∨ (e = .ctxErr ∧ a = .joinCancel c) ∨
+      (e = .other ∧ a = .joinFail c)) := by
   step_cases <;> grind
 
 theorem C18_join_error_returned {s} {c : Nat} {e : JErr} (h : s.jpc c = .failing e) :
@@ -180,10 +183,11 @@ theorem C18_unavailable_leaves_token {s} {c : Nat} (hm : s.managed (s.cur c) = s
       s'.managed (s.cur c) = none := by
   simp [step, hm, upd]
 
-/-- … which only `Leave` itself, the start of the next join or its completion remove … -/
+/-- … which only `Leave` itself, the start of the next join (also one that gives up at once) or its
+completion remove … -/
 theorem C18_token_kept {s a s'} (hs : step s a = some s') {c : Nat}
     (h : s.depart c = true) (h1 : a ≠ .leaveDepart c) (h2 : ∀ x, a ≠ .joinStart c x)
-    (h3 : a ≠ .avail (s.req c)) : s'.depart c = true := by
+    (h3 : a ≠ .avail (s.req c)) (h4 : ∀ x, a ≠ .joinAbort c x) : s'.depart c = true := by
   step_cases <;> grind
 
 /-- … so a waiting `Leave` returns when that presence has arrived (whenever it arrived), when the
@@ -383,6 +387,112 @@ theorem C18_gen_error_reply_scan :
     Generated.C18.errorScan = some (replyDomain.map fun cs => (cs, findError (replyChildren cs))) := by
   decide
 
+/-! ### overlapping calls on one channel; exits other than the room's answer (round E) -/
+
+/-- a `Join` call that gives up before its hand-off request is queued (its context is over and the
+slot is taken by a pending call of the same channel, or the `select` chose the context) returns the
+context's error — `ErrOccupantInUse` iff another channel is registered under the address — … -/
+theorem C18_aborted_join_returns (s : St) (c a : Nat) :
+    ∃ s', step s (.joinAbort c a) = some s' ∧
+      s'.lastAbort c = some (.err (if s.managed a ≠ none ∧ s.managed a ≠ some c then .refused else .ctxErr)) := by
+  by_cases h : s.managed a ≠ none ∧ s.managed a ≠ some c <;> simp [step, h, upd]
+
+/-- … and changes nothing of the bookkeeping except that it empties the channel's own `depart`:
+registrations, every call in flight (also the pending `Join` of the same channel and its hand-off
+request), membership, addresses held and requested, ghosts and callback counts are as before -/
+theorem C18_aborted_join_frame {s s'} {c a : Nat} (hs : step s (.joinAbort c a) = some s') :
+    s'.managed = s.managed ∧ s'.jpc = s.jpc ∧ s'.lpc = s.lpc ∧ s'.joined = s.joined ∧ s'.cur = s.cur ∧
+    s'.req = s.req ∧ s'.member = s.member ∧ s'.memberX = s.memberX ∧ s'.lastJoin = s.lastJoin ∧
+    s'.lastLeave = s.lastLeave ∧ s'.upres = s.upres ∧ s'.invites = s.invites ∧
+    (∀ c', c' ≠ c → s'.depart c' = s.depart c') := by
+  simp only [step] at hs
+  split at hs <;> simp at hs <;> subst hs <;> simp [upd]
+  intro c' hc'; simp [hc']
+
+/-- in particular the pending call is not disturbed: the self-presence of the address it asked for
+still completes it, whatever calls of that channel gave up in the meantime -/
+theorem C18_aborted_join_keeps_pending_join {s s'} {c a : Nat} (hs : step s (.joinAbort c a) = some s')
+    (hp : s.jpc c = .pending) (hm : s.managed (s.req c) = some c) :
+    ∃ s'', step s' (.avail (s.req c)) = some s'' ∧ s''.lastJoin c = some .ok ∧ s''.joined c = true ∧
+      s''.cur c = s.req c := by
+  obtain ⟨h1, h2, _, _, _, h6, _⟩ := C18_aborted_join_frame hs
+  have hm' : s'.managed (s'.req c) = some c := by rw [h1, h6]; exact hm
+  have hp' : s'.jpc c = .pending := by rw [h2]; exact hp
+  have := C18_self_presence_completes_join hm' hp'
+  rw [h6] at this
+  obtain ⟨s'', e1, e2, e3, _, e5⟩ := this
+  exact ⟨s'', e1, e2, e3, e5⟩
+
+/-- no stale registration, in every reachable state: whoever is registered under an occupant address
+is joined under it or has a `Join` call in flight that asked for it — a join that failed, was
+cancelled, or gave up before it had queued its request leaves nothing registered (so the room's
+presences for that address are ignored again and another channel may ask for it) -/
+theorem C18_no_stale_registration {addr0 s} (hr : Reach addr0 s) {a c : Nat} (hm : s.managed a = some c) :
+    (a = s.cur c ∧ s.joined c = true) ∨ (a = s.req c ∧ s.jpc c ≠ .idle) :=
+  owned_reach hr a c hm
+
+/-- … hence between calls presences of an address the channel is not joined under change nothing -/
+theorem C18_idle_unjoined_address_ignored {addr0 s} (hr : Reach addr0 s) {a : Nat}
+    (h : ∀ c, s.jpc c = .idle) (hj : ∀ c, s.joined c = true → s.cur c ≠ a) : step s (.avail a) = some s := by
+  cases hm : s.managed a with
+  | none => simp [step, hm]
+  | some c =>
+    rcases C18_no_stale_registration hr hm with ⟨h1, h2⟩ | ⟨_, h2⟩
+    · exact absurd h1.symm (hj c h2)
+    · exact absurd (h c) h2
+
+/-- the third exit of `JoinPresence` (the request cannot be sent, the reply carries no error element):
+the call returns that error after the same clean-up as every failed join; membership, address and
+ghost are untouched -/
+theorem C18_join_fail_returned {s} {c : Nat} (hp : s.jpc c = .pending) :
+    ∃ s' s'', step s (.joinFail c) = some s' ∧ step s' (.joinCleanup c) = some s'' ∧
+      s''.lastJoin c = some (.err .other) ∧ s''.jpc c = .idle ∧ s''.joined = s.joined ∧ s''.cur = s.cur ∧
+      s''.memberX = s.memberX := by
+  simp [step, hp, upd]
+
+/-- the third exit of `LeavePresence`: a plain error, nothing of the bookkeeping moves (the channel
+is still joined, still registered, a departure token is kept) -/
+theorem C18_leave_fail_frame {s s'} {c : Nat} (hs : step s (.leaveFail c) = some s') :
+    s.lpc c = .waiting ∧ s'.lastLeave c = some (.err .other) ∧ s'.managed = s.managed ∧ s'.joined = s.joined ∧
+    s'.depart = s.depart ∧ s'.memberX = s.memberX ∧ s'.member = s.member ∧ s'.cur = s.cur ∧ s'.jpc = s.jpc := by
+  simp only [step] at hs
+  split at hs <;> simp at hs
+  subst hs; simp [upd, *]
+
+/-- every way a `Leave` call can end, exhaustively: success only by consuming the token of the
+unavailable presence, the stanza error only by the room's error reply, the context's error only
+after its context was done, anything else only through the send / reply failure -/
+theorem C18_leave_outcome {s a s'} (hs : step s a = some s') {c : Nat} {o : JOut}
+    (hnew : s'.lastLeave c = some o) (hold : s.lastLeave c ≠ some o) :
+    s.lpc c = .waiting ∧
+    ((o = .ok ∧ a = .leaveDepart c ∧ s.depart c = true) ∨ (o = .err .stanzaErr ∧ a = .leaveError c) ∨
+     (o = .err .ctxErr ∧ a = .leaveCancel c) ∨ (o = .err .other ∧ a = .leaveFail c)) := by
+  step_cases <;> grind
+
+/-- … and every way a `Join` call can end -/
+theorem C18_join_outcome {s a s'} (hs : step s a = some s') {c : Nat} {o : JOut}
+    (hnew : s'.lastJoin c = some o) (hold : s.lastJoin c ≠ some o) :
+    (o = .ok ∧ a = .avail (s.req c) ∧ s.jpc c = .pending) ∨
+    (o = .err .refused ∧ a.isJoinStartOf c = true ∧ s.jpc c = .idle) ∨
+    (∃ e, o = .err e ∧ a = .joinCleanup c ∧ s.jpc c = .failing e) := by
+  step_cases <;> simp only [Act.isJoinStartOf] <;> grind
+
+-- non-vacuity: joined, a change of nickname pending, a second call gives up, the room confirms
+example : ∃ s, run (init fun c => c)
+    [.joinStart 0 0, .avail 0, .joinStart 0 10, .joinAbort 0 20, .joinAbort 0 10, .avail 10] = some s ∧
+    s.joined 0 = true ∧ s.cur 0 = 10 ∧ s.lastJoin 0 = some .ok ∧ s.managed 20 = none ∧
+    s.lastAbort 0 = some (.err .ctxErr) := by
+  simp [run, step, init, upd]
+example : ∃ s, run (init fun _ => 0) [.joinStart 0 0, .avail 0, .joinAbort 1 0] = some s ∧
+    s.lastAbort 1 = some (.err .refused) ∧ s.managed 0 = some 0 := by
+  simp [run, step, init, upd]
+example : ∃ s, run (init fun c => c) [.joinStart 0 0, .avail 0, .leaveStart 0, .leaveFail 0] = some s ∧
+    s.joined 0 = true ∧ s.lastLeave 0 = some (.err .other) := by
+  simp [run, step, init, upd]
+example : ∃ s, run (init fun c => c) [.joinStart 0 0, .joinFail 0, .joinCleanup 0, .avail 0] = some s ∧
+    s.joined 0 = false ∧ s.managed 0 = none ∧ s.upres = 0 ∧ s.lastJoin 0 = some (.err .other) := by
+  simp [run, step, init, upd]
+
 /-! ### presences for rooms that were never joined, invitations -/
 
 /-- presences from an address no channel is registered for change nothing and call nothing -/
@@ -404,34 +514,86 @@ theorem C18_unmanaged_ignored {addr0 s} (hr : Reach addr0 s) {a : Nat} (hm : s.m
     simp [hc, ← hi.mem c, this]
   · simp [hc]
 
-/-- each mediated invitation payload of a message is delivered to the callback exactly once —
-whatever its position among the children of the message — and nothing else calls the callback -/
-theorem C18_invite_once {s a s'} (hs : step s a = some s') :
+/- FULL-STRENGTH STATEMENT (property text), false for the code as it is:
+
+    theorem C18_invite_once : step s (.message cs) = some s' → s'.invites = s.invites + invitationsIn cs
+
+  The multiplexer calls the handler once per muc#user payload with the whole message, and the
+  handler keeps only the last payload.  Known finding
+  `clause=invite-once key=several-muc-user-payloads-in-one-message`. -/
+
+/-- the callback is called for messages only, `inviteCalls` times -/
+theorem C18_invite_calls {s a s'} (hs : step s a = some s') :
     s'.invites = match a with
-      | .message cs => s.invites + invitationsIn cs
+      | .message cs => s.invites + inviteCalls cs
       | _ => s.invites := by
   step_cases <;> simp
 
-/-- the order of the children does not matter -/
-theorem C18_invite_order_irrelevant {cs cs' : List Child} (h : cs.Perm cs') :
-    invitationsIn cs = invitationsIn cs' := by
-  unfold invitationsIn
-  exact (h.filter _).length_eq
+theorem invitationsIn_payloads (cs : List Child) : invitationsIn cs = invitationsIn (mucPayloads cs) := by
+  unfold invitationsIn mucPayloads
+  rw [List.filter_filter]
+  congr 1
+  apply List.filter_congr
+  intro x _
+  cases x <;> rfl
+
+/-- each mediated invitation is delivered exactly once — for every message that carries at most one
+muc#user payload (what a room forwards), whatever else the message carries and wherever the payload
+stands among the children -/
+theorem C18_invite_once_partial {s s'} {cs : List Child} (hs : step s (.message cs) = some s')
+    (h : (mucPayloads cs).length ≤ 1) : s'.invites = s.invites + invitationsIn cs := by
+  have hc := C18_invite_calls hs
+  simp only at hc
+  rw [hc, invitationsIn_payloads]
+  unfold inviteCalls
+  generalize mucPayloads cs = l at h
+  match l, h with
+  | [], _ => rfl
+  | [x], _ => cases x <;> rfl
+  | _ :: _ :: _, h => simp at h
+
+/-- negation witness of the full-strength statement: an invitation followed by a decline in one
+message is not delivered at all (and one that follows a decline is delivered twice) -/
+theorem C18_invite_once_fails :
+    ¬ (∀ s s' cs, step s (.message cs) = some s' → s'.invites = s.invites + invitationsIn cs) := by
+  intro h
+  have := h (init fun c => c) _ [.mucInvite, .mucOther] rfl
+  revert this
+  decide
+
+example : inviteCalls [.mucOther, .mucInvite] = 2 ∧ invitationsIn [.mucOther, .mucInvite] = 1 := by decide
+example : inviteCalls [.mucInvite, .mucOther] = 0 ∧ invitationsIn [.mucInvite, .mucOther] = 1 := by decide
+
+/-- the order of the children does not matter (at most one muc#user payload) -/
+theorem C18_invite_order_irrelevant {cs cs' : List Child} (h : cs.Perm cs') (h1 : (mucPayloads cs).length ≤ 1) :
+    inviteCalls cs = inviteCalls cs' := by
+  have hp : (mucPayloads cs).length = (mucPayloads cs').length := (h.filter _).length_eq
+  have e1 := C18_invite_once_partial (s := init fun c => c) (cs := cs) rfl h1
+  have e2 := C18_invite_once_partial (s := init fun c => c) (cs := cs') rfl (hp ▸ h1)
+  have hi : invitationsIn cs = invitationsIn cs' := by
+    unfold invitationsIn
+    exact (h.filter _).length_eq
+  simp [init] at e1 e2
+  omega
 
 /-- a message with exactly one mediated invitation payload, anywhere, gives exactly one callback;
-one without gives none (body, subject, legacy direct invitation, decline, other payloads) -/
-theorem C18_invite_anywhere (pre post : List Child) (hpre : Child.mucInvite ∉ pre) (hpost : Child.mucInvite ∉ post) :
-    invitationsIn (pre ++ .mucInvite :: post) = 1 ∧ invitationsIn (pre ++ post) = 0 := by
-  have h : ∀ l : List Child, Child.mucInvite ∉ l → (l.filter (· == .mucInvite)) = [] := by
+one with a decline instead, or without any muc#user payload, gives none (body, subject, legacy direct
+invitation, other payloads) -/
+theorem C18_invite_anywhere (pre post : List Child) (hpre : ∀ c ∈ pre, c.isMucUser = false)
+    (hpost : ∀ c ∈ post, c.isMucUser = false) :
+    inviteCalls (pre ++ .mucInvite :: post) = 1 ∧ inviteCalls (pre ++ .mucOther :: post) = 0 ∧
+    inviteCalls (pre ++ post) = 0 := by
+  have h : ∀ l : List Child, (∀ c ∈ l, c.isMucUser = false) → mucPayloads l = [] := by
     intro l hl
     apply List.filter_eq_nil_iff.mpr
-    intro x hx hxe
-    have : x = .mucInvite := by simpa using hxe
-    exact hl (this ▸ hx)
-  unfold invitationsIn
-  simp [List.filter_append, h pre hpre, h post hpost]
+    intro x hx; simp [hl x hx]
+  have h1 := h pre hpre
+  have h2 := h post hpost
+  unfold mucPayloads at h1 h2
+  unfold inviteCalls mucPayloads
+  simp [List.filter_append, List.filter_cons, Child.isMucUser, h1, h2]
 
-example : invitationsIn [.body, .legacyX, .mucInvite, .subject] = 1 := by decide
-example : invitationsIn [.body, .legacyX, .mucOther] = 0 := by decide
+example : inviteCalls [.body, .legacyX, .mucInvite, .subject] = 1 := by decide
+example : inviteCalls [.body, .legacyX, .mucOther] = 0 := by decide
 
 end XmppModel.Props.C18
